@@ -1059,13 +1059,26 @@ static void c20Case(Sink &sink, const Args &a, long c)
     const PInfo &pi = *single[c % (nplan + 1)];
     sink.subject(pi.name);
     long widx = c / (nplan + 1);
+    // SORRT*'s ordered rejection sampler can spend minutes inside ONE sampling call when the informed set is thin (it fills a
+    // whole batch by rejection without looking at the termination condition): a liveness matter outside C20, which would only
+    // stall the check. It keeps the first eight worlds (where no run does that), not the cluttered / narrow ones added later.
+    if (pi.name == "SORRTstar" && (widx >= 8 || widx % 3 == 2))
+    {
+        sink.count("c20_skipped_sorrtstar_thin_informed_set_worlds");
+        sink.noteCase(0, false);
+        return;
+    }
     // (the weighted compound has a zero-weight component in half of its worlds: every state carries a coordinate that no
     // distance sees - a sampler or copy that leaves it unwritten makes the result depend on what the heap held before)
     static const int KINDS[] = {K_R2, K_SE2, K_SE3, K_CMP, K_R3, K_CMP};
     int kind = KINDS[widx % 6];
     zeroWeightCmpFraction() = 0.5;
     uint64_t wseed = hmix(hmix(splitmix(a.seed), 0xC20), widx);
-    auto w = makeWorld(wseed, kind, false);
+    // every third world is cluttered (20-45 small obstacles) or has a narrow passage, and is run with the full budget: lazy planners then discard and
+    // re-grow parts of their trees many times, which is where an order that depends on where nodes happen to lie in memory
+    // (pointer-keyed containers, pointer comparisons) changes the result
+    const bool hard = widx % 3 == 2;
+    auto w = makeWorld(wseed, kind, false, hard ? (widx % 6 == 2 ? -4 : -3) : -1);   // -4 cluttered, -3 narrow passage
     w->rangeMode = 0;
     Rng rng(caseSeed(a, c));
     auto pdef = makePdef(*w);
@@ -1075,7 +1088,7 @@ static void c20Case(Sink &sink, const Args &a, long c)
         auto planner = makePlanner(pi, *w, rng);
         planner->setProblemDefinition(pdef);
         planner->setup();
-        EvalPTC e(std::max(300L, (long)pi.budget / 2), !pi.optimizing, pdef);
+        EvalPTC e(hard ? (long)pi.budget : std::max(300L, (long)pi.budget / 2), !pi.optimizing, pdef);
         ob::PlannerStatus st = planner->solve(e.ptc);
         uint64_t h = hmix((uint64_t)(ob::PlannerStatus::StatusType)st, pdef->getSolutionCount());
         for (auto &sol : pdef->getSolutions()) h = hmix(h, pathFingerprint(*w, sol.path_));
